@@ -10,8 +10,8 @@ RULE = ("Compositions are generated as letter->count tables satisfying premise 1
         "(>= 1/4 of residues from DEFHIKLMPQRSVWY, the rest from all 26 letters; lower-case rates drawn independently for the protein-only letters and the rest: 0, 2 %, 50 %, 98 %, 100 %), including exact-boundary "
         "tables (protein-only fraction exactly 1/4 with the remainder on one letter), then laid out as 2..40 sequences in "
         "a drawn order with drawn names; observed through kalign_arr_to_msa (array) and the FASTA/MSF/Clustal readers, "
-        "also as gapped presentations (up to 95% gap characters); a quarter of the cases are observed after 1..3 earlier calls (array or file input of either kind, up to 18000 residues) in the same process. Oracle: reported biotype == expected kind, and equal "
-        "after permuting and renaming the sequences; for inputs of <= 300 residues the run must accept the alignment type of the expected kind and reject the other. extra(): boundary compositions enumerated exhaustively for all "
+        "also as gapped presentations (up to 95% gap characters); FASTA input is in one file or split over 2..3 files read into one object; a quarter of the cases are observed after 1..3 earlier calls (array or file input of either kind, up to 18000 residues) in the same process. Oracle: reported biotype == expected kind, and equal "
+        "after permuting and renaming the sequences; for inputs of <= 300 residues the run must accept the alignment type of the expected kind and reject the other. extra(): totals of 120000..1200000 residues (thorough ..4500000) enumerated for five alphabets; boundary compositions enumerated exhaustively for all "
         "(protein-only letter, filler letter) pairs. Non-trivial = >= 2 distinct letters; distinct by composition+layout hash.")
 ASSUMPTIONS = ["compositions satisfying neither premise are not judged",
                "letters kalign's readers drop (non-alphabetic) are not residues"]
@@ -92,7 +92,10 @@ def cases(draw, tier):
                                    draw(st.integers(2, 6)), 5, draw(st.sampled_from([20, 200, 3000])))
             history.append({"via": draw(st.sampled_from(["arr", "arr", "fasta"])), "seqs": hs})
     return {"seqs": seqs, "via": via, "gapfrac": gapfrac, "perm_seed": perm_seed, "names": names, "names2": names2,
-            "gap_seed": draw(st.integers(0, 2 ** 16)), "history": history}
+            "gap_seed": draw(st.integers(0, 2 ** 16)), "history": history,
+            # FASTA input: the records in one file, or split over 2..3 files that are read into one object (each part has to
+            # carry the kind on its own - kalign refuses to merge files it takes for different kinds)
+            "nfiles": draw(st.sampled_from([1, 1, 2, 2, 3])), "split_seed": draw(st.integers(0, 2 ** 16))}
 
 
 def strategy(tier):
@@ -128,9 +131,28 @@ def history_steps(history):
     return lines
 
 
-def observe(seqs, names, via, gapfrac, gap_seed, history=None):
+def observe(seqs, names, via, gapfrac, gap_seed, history=None, nfiles=1, split_seed=0, cuts=None):
     pre = history_steps(history)
     wd = runner.workdir()
+    if via == "fasta" and nfiles > 1:
+        cuts = list(cuts) if cuts else kal.split_points(len(seqs), nfiles, split_seed)
+        bounds = [0] + cuts + [len(seqs)]
+        want = gen.expected_kind(seqs)
+        if cuts and all(gen.expected_kind(seqs[a:b]) == want for a, b in zip(bounds, bounds[1:])):
+            lines = []
+            for a, b in zip(bounds, bounds[1:]):
+                fp = wd.write(formats.write_fasta(names[a:b], seqs[a:b], width=60).encode("latin-1"), ".in")
+                lines.append("read 0 1 %s" % fp)
+            pr = runner.run_probe(pre + lines + ["dump 0", "free 0"])
+            k = len(pre) + len(lines)
+            if pr.ended.bad or pr.ended.rc != 0 or not pr.steps or len(pr.steps) < k + 2:
+                raise kal.Failure(pr.ended, "kalign_read_input (several files)")
+            if any(x["rc"] != 0 for x in pr.steps[len(pre):k]) or pr.steps[k].get("msa") is None:
+                raise kal.Rejected("read of a part failed", {"rcs": [x["rc"] for x in pr.steps[len(pre):k]]})
+            m = pr.steps[k]["msa"]
+            if [q["seq"] for q in m["seqs"]] != list(seqs):
+                raise kal.Rejected("reader returned different residues (C04/C06 territory)", {"n": len(m["seqs"])})
+            return m["biotype"]
     if via == "arr":
         if not pre:
             return kal.biotype_of(seqs)
@@ -175,7 +197,35 @@ def finding_for(case, want):
     return None
 
 
+def huge_seqs(h):
+    rnd = random.Random(h["seed"])
+    L = max(1, h["total"] // h["nseq"])
+    return ["".join(rnd.choices(h["alphabet"], k=L)) for _ in range(h["nseq"])]
+
+
+def check_huge(case):
+    h = case["huge"]
+    seqs = huge_seqs(h)
+    want = gen.expected_kind(seqs)
+    if want is None:
+        return engine.discard("neither premise holds")
+    try:
+        b = kal.biotype_of(seqs, variant="plain")
+    except kal.Failure as f:
+        return engine.violation({"what": "process failure", **f.detail()}, kind="crash")
+    except kal.Rejected as e:
+        return engine.violation({"what": "kind detection failed on %d residues: %s" % (sum(map(len, seqs)), e.what)}, kind="status")
+    cl = ["via=arr", "want=" + want, "residues>=120000"]
+    if b != (1 if want == "dna" else 0):
+        return engine.violation({"what": "%d residues over %r in %d sequences (%s premise) reported as biotype %d" %
+                                 (sum(map(len, seqs)), h["alphabet"], h["nseq"], want, b)}, classes=cl)
+    return engine.ok(True, cl, {"residues": sum(map(len, seqs)), "nseq": h["nseq"], "alphabet": h["alphabet"], "want": want},
+                     key="huge:%d:%s" % (h["total"], h["alphabet"]))
+
+
 def check(case):
+    if case.get("huge"):
+        return check_huge(case)
     seqs = case["seqs"]
     want = gen.expected_kind(seqs)
     if want is None:
@@ -193,8 +243,11 @@ def check(case):
         cl.append("records>512")
     if case.get("history"):
         cl.append("after_earlier_calls")
+    if case["via"] == "fasta" and case.get("nfiles", 1) > 1:
+        cl.append("several_files")
     try:
-        b1 = observe(seqs, case["names"], case["via"], case["gapfrac"], case["gap_seed"], case.get("history"))
+        b1 = observe(seqs, case["names"], case["via"], case["gapfrac"], case["gap_seed"], case.get("history"),
+                     case.get("nfiles", 1), case.get("split_seed", 0), case.get("cuts"))
         rnd = random.Random(case["perm_seed"])
         idx = list(range(len(seqs)))
         rnd.shuffle(idx)
@@ -262,4 +315,56 @@ def extra(tier, seed, stats):
                     out.append({"case": case, "detail": {"what": "boundary composition %s:%s reported as %d" % (p, f, b)},
                                 "kind": "mismatch"})
     stats.extra["enumerated_boundary_pairs"] = n
+    # letter statistics across files: a small first file and a larger second one of the same boundary composition (1/4
+    # protein-only letter x, 3/4 nucleotide letter f), every x, both cases of x and of f: the votes of every letter in
+    # either case must survive the merge of the files
+    merge_cases = []
+    for x in PONLY:
+        for xc in (x, x.lower()):
+            for f in "ACGT":
+                for fc in (f, f.lower()):
+                    s1 = [x * 2 + f * 6, f * 6 + x * 2]
+                    s2 = [(xc + fc * 3) * 10, (fc * 3 + xc) * 10, (fc + xc + fc * 2) * 10]
+                    merge_cases.append({"seqs": s1 + s2, "via": "fasta", "gapfrac": 0.0, "perm_seed": 0, "names": ["a1", "a2", "b1", "b2", "b3"],
+                                        "names2": ["c1", "c2", "d1", "d2", "d3"], "gap_seed": 0, "nfiles": 2, "cuts": [2]})
+    from concurrent.futures import ThreadPoolExecutor
+
+    def one(c):
+        try:
+            wd = runner.workdir()
+            lines = []
+            for a, b in ((0, 2), (2, 5)):
+                fp = wd.write(formats.write_fasta(c["names"][a:b], c["seqs"][a:b], width=60).encode("latin-1"), ".in")
+                lines.append("read 0 1 %s" % fp)
+            pr = runner.run_probe(lines + ["dump 0", "free 0"])
+            if pr.ended.bad or not pr.steps or len(pr.steps) < 3:
+                return ("crash", pr.ended.brief())
+            if pr.steps[0]["rc"] != 0 or pr.steps[1]["rc"] != 0 or pr.steps[2].get("msa") is None:
+                return ("rejected", [pr.steps[0]["rc"], pr.steps[1]["rc"]])
+            return ("ok", pr.steps[2]["msa"]["biotype"])
+        except Exception as e:      # noqa
+            return ("crash", {"error": str(e)})
+
+    with ThreadPoolExecutor(max_workers=12) as ex:
+        res = list(ex.map(one, merge_cases))
+    for c, (st_, val) in zip(merge_cases, res):
+        stats.evaluations += 1
+        stats.classes["two_files_enumerated"] += 1
+        if st_ == "ok" and val == 0:
+            stats.nontrivial.add("merge:%s" % c["seqs"][2][:4])
+            continue
+        what = ("two FASTA files, each of them protein by the 1/4 premise (%r.. and %r..), read into one object: " % (c["seqs"][0], c["seqs"][2][:8])) + \
+               ("reported as biotype %r" % val if st_ == "ok" else "%s %r" % (st_, val))
+        out.append({"case": c, "detail": {"what": what}, "kind": "mismatch" if st_ != "crash" else "crash"})
+    # very large inputs: the decision is a sum over all residues, so totals from 10^5 to a few 10^6 are enumerated
+    # (array path; 40..6400 sequences)
+    rnd = random.Random(seed + 77)
+    totals = [120000, 160000, 200000, 260000, 400000, 600000, 700000, 860000, 1200000] + ([] if tier == "quick" else [1700000, 2300000, 4500000])
+    for tot in totals:
+        for alpha in ("DEFHIKLMPQRSVWY" * 3 + "ACGTNBZX", "DEFHIKLMPQRSVWY", "ACGT", "ACGTUN", "acgtn"):
+            case = {"huge": {"seed": rnd.randrange(2 ** 32), "total": tot, "nseq": rnd.choice([40, 400, 2400, 6400]), "alphabet": alpha}}
+            r = check_huge(case)
+            stats.record(case, r)
+            if r["status"] == "violation":
+                out.append({"case": case, "detail": r["detail"], "kind": r.get("kind")})
     return out
